@@ -74,6 +74,7 @@ conformance = [
     conf("src/soplex/spxsimplifier.h", r"virtual\s+void\s+unsimplify\(const\s+VectorBase<R>&,\s*const\s+VectorBase<R>&,\s*const\s+VectorBase<R>&,\s*const\s+VectorBase<R>&,\s*const\s+typename\s+SPxSolverBase<R>::VarStatus\[\],\s*const\s+typename\s+SPxSolverBase<R>::VarStatus\[\],\s*bool\s+isOptimal\s*=\s*true\)", "SimplifierStub::unsimplify"),
     conf("src/soplex/spxmainsm.hpp", r"void\s+SPxMainSM<R>::unsimplify\(const\s+VectorBase<R>&\s*x,\s*const\s+VectorBase<R>&\s*y,\s*const\s+VectorBase<R>&\s*s,\s*const\s+VectorBase<R>&\s*r,", "argument order primal, dual, slacks, reduced costs"),
     conf("src/soplex/statistics.h", r"Timer\*\s*solvingTime;", "StatStub"),
+    conf(SOLVER_H, r"int\s+maxIters;.*?Real\s+maxTime;", "SolverStubL members"),
     conf("src/soplex/statistics.h", r"int\s+iterations;.*?int\s+refinements;.*?int\s+stallRefinements;", "StatStub"),
 ]
 
@@ -86,6 +87,7 @@ trusted = [
     "store instance: vectors are (dimension, identity) pairs; VectorBase assignment from the simplifier's result vectors is a recorded event; getPrimalray / getDualfarkas / the four getters are recorded with the identity and dimension of the vector they were handed (their bodies: unit solextract for the getters; getPrimalray/getDualfarkas copy primalRay/dualFarkas, not under contract)",
     "type invariant assumed at entry of _storeSolutionReal: _isRealLPLoaded <=> _realLP == &_solver (established by _loadRealLP / _preprocessAndSolveReal)",
     "verifyObjLimit instance: getDualViolation / getRedCostViolation are replaced by the caller-side part of the contract proved on their real bodies in units/verifynet (on failure nothing is written, on success the maximum is >= 0)",
+    "solveRealLP_limits instance: a REGION of _solveRealLPAndRecordStatistics (the limit hand-over) with the real setters; assumed driver invariant: recorded iterations <= a set ITERLIMIT (without it a negative remainder becomes `no limit`); parameter domains as enforced by setIntParam/setRealParam (C15)",
     "SPX_MSG_* logging compiled out; assert() compiled out (NDEBUG semantics)",
 ]
 
@@ -189,6 +191,27 @@ instances = [
               "find": "return stoppedTime || stoppedIter;", "replace": "return stoppedTime && stoppedIter;"},
              {"name": "infinite_limit_not_exempt", "slice": "_isSolveStopped.inc",
               "find": "realParam(TIMELIMIT) < realParam(INFTY)", "replace": "realParam(TIMELIMIT) <= realParam(INFTY)"},
+         ], 10),
+    inst("solveRealLP_limits",
+         "SoPlexBase<R>::_solveRealLPAndRecordStatistics(volatile bool* interrupt), region `set time and iteration limit`  [src/soplex.hpp]; "
+         "SPxSolverBase<R>::setTerminationIter, setTerminationTime  [src/soplex/spxsolver.hpp]",
+         "INST_LIMITS", "h_limits", "w_limits",
+         [{"as": "setTerminationIter.inc", "file": "src/soplex/spxsolver.hpp", "sig": r"void\s+SPxSolverBase<R>::setTerminationIter\s*\(\s*int\s+p_iteration\s*\)"},
+          {"as": "setTerminationTime.inc", "file": "src/soplex/spxsolver.hpp", "sig": r"void\s+SPxSolverBase<R>::setTerminationTime\s*\(\s*Real\s+p_time\s*\)"},
+          {"as": "solveRealLP_limits.inc", "file": HPP, "region_start": r"// set time and iteration limit\s*if\(intParam\(SoPlexBase<R>::ITERLIMIT\) < realParam\(SoPlexBase<R>::INFTY\)\)\s*_solver\.setTerminationIter",
+           "region_end": r"// ensure that tolerances are not too small",
+           "must_contain": [r"_solver\.setTerminationIter\(intParam\(SoPlexBase<R>::ITERLIMIT\)\s*-\s*_statistics->iterations\);",
+                            r"_solver\.setTerminationTime\(Real\(realParam\(SoPlexBase<R>::TIMELIMIT\)\)\s*-\s*_statistics->solvingTime->time\(\)\);"]}],
+         [
+             {"name": "full_limit_for_every_resolve", "slice": "solveRealLP_limits.inc",
+              "find": "_solver.setTerminationIter(intParam(SoPlexBase<R>::ITERLIMIT) - _statistics->iterations);", "replace": "_solver.setTerminationIter(intParam(SoPlexBase<R>::ITERLIMIT));"},
+             {"name": "remainder_sign_flipped", "slice": "solveRealLP_limits.inc",
+              "find": "_solver.setTerminationIter(intParam(SoPlexBase<R>::ITERLIMIT) - _statistics->iterations);", "replace": "_solver.setTerminationIter(_statistics->iterations - intParam(SoPlexBase<R>::ITERLIMIT));"},
+             {"name": "full_time_for_every_resolve", "slice": "solveRealLP_limits.inc",
+              "find": "_solver.setTerminationTime(Real(realParam(SoPlexBase<R>::TIMELIMIT)) -\n                                 _statistics->solvingTime->time());", "replace": "_solver.setTerminationTime(Real(realParam(SoPlexBase<R>::TIMELIMIT)) + _statistics->solvingTime->time());"},
+             {"name": "time_limit_test_flipped", "slice": "solveRealLP_limits.inc",
+              "find": "if(realParam(SoPlexBase<R>::TIMELIMIT) < realParam(SoPlexBase<R>::INFTY))", "replace": "if(realParam(SoPlexBase<R>::TIMELIMIT) > realParam(SoPlexBase<R>::INFTY))"},
+             {"name": "negative_iterations_clamped_to_zero_time", "slice": "setTerminationTime.inc", "find": "p_time = 0.0;", "replace": "p_time = -1.0;"},
          ], 10),
 ]
 
